@@ -131,6 +131,20 @@ def generate(rng, n, tier):
                     yield {"cls": name, "src": src, "clauses": cl, "frame": fr}
             else:
                 yield {"cls": name, "src": src, "clauses": cl}
+    # OVER() with nothing to partition by: the window clause and a frame must still be rendered
+    for name, src, c in cat:
+        if src is None:
+            continue
+        opts = clause_space(c)
+        if "over" not in opts:
+            continue
+        rest = [o for o in opts if o not in ("over", "frame")]
+        for mask in range(1 << len(rest)):
+            cl = ["over_empty"] + [o for i, o in enumerate(rest) if mask >> i & 1]
+            yield {"cls": name, "src": src, "clauses": cl}
+            if "frame" in opts:
+                for fr in (["rows", ["preceding", 2], ["current"]], ["range", ["preceding", None], None], ["rows", ["preceding", 0], ["following", 0]]):
+                    yield {"cls": name, "src": src, "clauses": cl + ["frame"], "frame": fr}
     # nested / in-statement uses
     good = [(nm, s, c) for nm, s, c in cat if s is not None]
     for _ in range(n):
@@ -169,6 +183,8 @@ def build(case):
         chain += ".filter(F('fa') > 1, F('fb').isnull())"
     if "over" in cl:
         chain += ".over(F('p1'), F('p2'))"
+    if "over_empty" in cl:
+        chain += ".over()"
     if "orderby" in cl:
         chain += ".orderby(F('o1'), order=Order.desc).orderby(F('o2'))"
     if "frame" in cl:
@@ -205,7 +221,7 @@ def reference(obj, case):
     out = core
     if "filter" in cl:
         out += " FILTER(WHERE \"fa\">1 AND \"fb\" IS NULL)"
-    if "over" in cl or "orderby" in cl:
+    if "over" in cl or "orderby" in cl or "over_empty" in cl:
         parts = []
         if "over" in cl:
             parts.append('PARTITION BY "p1","p2"')
@@ -245,7 +261,7 @@ def examine(case):
         res.findings.append({"sig": {"kind": kind, "cls": case["cls"]}, "what": what + " | " + src})
 
     # frames without OVER are rendered only inside OVER(...): skip the structural comparison there
-    frame_without_over = "frame" in cl and not ("over" in cl or "orderby" in cl)
+    frame_without_over = "frame" in cl and not ("over" in cl or "orderby" in cl or "over_empty" in cl)
     if not frame_without_over:
         ref = reference(obj, case)
         if text != ref:
